@@ -2,7 +2,7 @@
 import contextvars
 
 from .core import EventLog, keyed_rng
-from .loop import VirtualLoop
+from .loop import SimLivelock, VirtualLoop
 
 
 class World:
@@ -18,6 +18,18 @@ class World:
         self.faults = {}
         self.states = set()
         self.on_write = None
+        self._seam_iter = -1
+        self._seam_calls = 0
+
+    def seam_call(self):
+        """Called by every fake I/O entry point: a deterministic guard against
+        busy loops that never return to the event loop."""
+        it = self.loop.iterations
+        if it != self._seam_iter:
+            self._seam_iter, self._seam_calls = it, 0
+        self._seam_calls += 1
+        if self._seam_calls > 20000:
+            raise SimLivelock()
 
     def rng(self, *key):
         return keyed_rng(self.seed, *key)
